@@ -41,45 +41,57 @@ pub fn is_ended_by<T: EbmlSpecification<T> + EbmlTag<T> + Clone>(current_id: u64
 #[inline(always)]
 pub fn validate_tag_path<T: EbmlSpecification<T> + EbmlTag<T> + Clone>(tag_id: u64, doc_path: impl Iterator<Item = (u64, EBMLSize, usize)>) -> bool {
     let path = <T>::get_path_by_id(tag_id);
-    let mut path_marker = 0;
-    let mut global_counter = 0;
-    for item in doc_path {
-        let current_node_id = item.0;
+    let mut parents: Vec<u64> = Vec::new();
 
-        if !item.1.is_known() && is_ended_by::<T>(current_node_id, tag_id) {
-            return true;
+    // Unknown sized masters at the end of the document path that are ended by this tag are not among its parents
+    let mut ended_from: Option<usize> = None;
+    for (index, item) in doc_path.enumerate() {
+        if item.1.is_known() {
+            ended_from = None;
+        } else if ended_from.is_none() && is_ended_by::<T>(item.0, tag_id) {
+            ended_from = Some(index);
         }
-
-        if path_marker >= path.len() {
-            return false;
-        }
-
-        match path[path_marker] {
-            PathPart::Id(id) => {
-                if id != current_node_id {
-                    return false;
-                }
-                path_marker += 1;
-            },
-            PathPart::Global((min, max)) => {
-                global_counter += 1;
-                if max.is_some() && global_counter > max.unwrap_or_default() {
-                    return false;
-                }
-                if path.len() > (path_marker + 1) && matches!(path[path_marker + 1], PathPart::Id(id) if id == current_node_id) {
-                    if min.is_some() && global_counter < min.unwrap_or_default() {
-                        return false;
-                    }
-                    path_marker += 2;
-                    global_counter = 0;
-                }
-            },
-        }
+        parents.push(item.0);
+    }
+    if let Some(index) = ended_from {
+        parents.truncate(index);
     }
 
-    // Validate that we compared ALL parents in the path
-    path.len() == path_marker || 
-    // or that the last parent was a global whose minimum was met
-        ((path.len() - 1) == path_marker && matches!(path[path_marker], PathPart::Global((min, _)) if global_counter >= min.unwrap_or(0)))
-    
+    path_matches(path, &parents)
+}
+
+///
+/// Returns whether or not the chain of `parents` (outermost first) is allowed by the schema `path`.
+/// 
+/// Every [`PathPart::Id`] must be matched by exactly that parent, every [`PathPart::Global`] stands for any `min..=max` parents, and all parents must be accounted for.
+/// 
+fn path_matches(path: &[PathPart], parents: &[u64]) -> bool {
+    // reachable[n] is true when the path parts handled so far can account for exactly the first n parents
+    let mut reachable = vec![false; parents.len() + 1];
+    reachable[0] = true;
+    for part in path {
+        let mut next = vec![false; parents.len() + 1];
+        for start in 0..=parents.len() {
+            if !reachable[start] {
+                continue;
+            }
+            match part {
+                PathPart::Id(id) => {
+                    if parents.get(start) == Some(id) {
+                        next[start + 1] = true;
+                    }
+                },
+                PathPart::Global((min, max)) => {
+                    let remaining = (parents.len() - start) as u64;
+                    let min = min.unwrap_or(0);
+                    let max = max.unwrap_or(remaining).min(remaining);
+                    for count in min..=max {
+                        next[start + count as usize] = true;
+                    }
+                },
+            }
+        }
+        reachable = next;
+    }
+    reachable[parents.len()]
 }
